@@ -64,13 +64,16 @@ def scalar_sym(e, env):
 class Typer:
     """types callables inside one evolution function"""
 
-    def __init__(self, src, fi):
+    def __init__(self, src, fi, preset=None):
         self.src, self.fi = src, fi
-        self.names = {}
+        self.names = dict(preset or {})
         self.scan()
 
     def scan(self):
         for n in ast.walk(self.fi.node):
+            if isinstance(n, ast.Assign) and isinstance(n.value, ast.Subscript) and isinstance(n.value.value, ast.Call) and unparse(n.value.value.func) in HOP_SOURCES \
+                    and isinstance(n.value.slice, ast.Constant) and n.value.slice.value == 0 and isinstance(n.targets[0], ast.Name):
+                self.names[n.targets[0].id] = OpType(True, sp.Integer(1), f"{unparse(n.value.value.func)}(...)[0]")      # the first element of (operator, diagonal)
             if isinstance(n, ast.Assign) and isinstance(n.value, ast.Call):
                 f = unparse(n.value.func)
                 t = n.targets[0]
@@ -169,7 +172,33 @@ def krylov_rule(chk, src, rule, rels):
                 key = f"{fi.qual}#{k}: expm_krylov({norm_stmt(c.args[0], 50)}, ...)"
                 t = ty.type_expr(c.args[0])
                 if t is None:
-                    raise AnalysisError(f"{fi.where}: operand of expm_krylov at line {c.lineno} cannot be typed: {unparse(c.args[0])[:80]}")
+                    # a helper that receives the operator from its callers: typed per call site of the helper, with the types of the arguments handed in
+                    sites = []
+                    for fj in src.funcs_in(rel):
+                        if fj.parent is not None or fj is fi:
+                            continue
+                        for c2 in ast.walk(fj.node):
+                            if isinstance(c2, ast.Call) and unparse(c2.func).split(".")[-1] == fi.name:
+                                tj = Typer(src, fj)
+                                ps = fi.params()
+                                preset = {}
+                                for i_, a_ in enumerate(c2.args):
+                                    if i_ < len(ps) and tj.type_expr(a_) is not None:
+                                        preset[ps[i_]] = tj.type_expr(a_)
+                                for k_ in c2.keywords:
+                                    if k_.arg in ps and tj.type_expr(k_.value) is not None:
+                                        preset[k_.arg] = tj.type_expr(k_.value)
+                                sites.append((fj, c2, Typer(src, fi, preset).type_expr(c.args[0]), coef_values(fj)))
+                    if not sites or any(t2 is None for _, _, t2, _ in sites):
+                        raise AnalysisError(f"{fi.where}: operand of expm_krylov at line {c.lineno} cannot be typed: {unparse(c.args[0])[:80]}")
+                    n -= 1
+                    for fj, c2, t2, cv2 in sites:
+                        n += 1
+                        key2 = f"{fj.qual} -> {fi.qual}#{k}: expm_krylov({norm_stmt(c.args[0], 40)}, ...)"
+                        bad = [f"coef={cv}: operator = ({sp.simplify(t2.factor.subs(COEF, cv))}) * H" for cv in sorted(cv2, key=str) if sp.im(sp.simplify(t2.factor.subs(COEF, cv))) != 0]
+                        chk.ob(rule, key2, t2.herm and not bad, fj.where, (f"non-Hermitian ({t2.why})" if not t2.herm else bad) or f"({t2.factor}) * H", "real multiple of a Hermitian operator", line=c2.lineno,
+                               detail="the Krylov exponential is given a non-Hermitian operator: its Lanczos recurrence assumes real alpha; complex factors belong in the time step, not in the operator")
+                    continue
                 if not t.herm:
                     chk.ob(rule, key, False, fi.where, f"non-Hermitian ({t.why})", "Hermitian operator", line=c.lineno,
                            detail="expm_krylov documents `A is a hermitian matrix` (alpha = <w,v>.real in the Lanczos recurrence)")
@@ -615,6 +644,10 @@ def run(chk):
     chk.rule("krylov-hermitian", "operand of expm_krylov is a real multiple of a Hermitian operator for every time mode", 8)
     chk.rule("solver-sibling", "abstract runs of the tangent-space schemes with both local solvers (real and imaginary step, both sweep directions): call by call the same exponent on the same effective operator, forward / backward half (full) steps", 12)
     chk.rule("heff-network", "effective-Hamiltonian matvec == canonical network", 7)
+    chk.rule("bond-limit", "the renormalised-basis update of the two-site schemes (abstract run of _update_mps, both directions, with and without on-the-fly swapping): the kept count comes from "
+             "the limit configured for the bond being cut (site cidx[0] sweeping right, cidx[-1] sweeping left)", 8)
+    from .chain_rules import update_mps_rule
+    update_mps_rule(chk, src, {"bond": "bond-limit"})
     chk.rule("must-compress", "propagate-and-compress evolvers return compressed states", 7)
     chk.rule("relative-error-homogeneous", "adaptive error estimates (recorded in the abstract runs of the TDVP wrapper and of the Taylor evolver) divide norms of the same kind, both with or both without the scalar prefactor; general Runge-Kutta evolver: ||tau sum (b - b*) k|| / ||trial||, both full norms", 8)
     chk.rule("adaptive-reject", "adaptive Taylor evolver (abstract run in the algebra of powers of H, scripted error estimates): result = composition of the accepted sub-steps, which add up to the step; rejected trials leave no trace; the same for the embedded Runge-Kutta pairs of the general evolver (free-algebra run)", 5)
